@@ -60,7 +60,6 @@ const Statement *Statement::execute(Context& ctx) const
   }
 #endif
   bool trace = ctx.trace();
-  _level = ctx.execLevel();
   if (trace) trace_pre(ctx);
   const Statement * next = doit(ctx);
   if (trace) trace_post(ctx);
